@@ -3,6 +3,7 @@ import ast
 
 from ..events import all_events, construct_of
 from ..terms import show, is_const, mentions
+from ..e3 import pc_truth
 from ..repo import AnalysisError, dotted
 from . import shared
 
@@ -19,6 +20,7 @@ EXPLANATION = (
     "int and plumbed slot by slot to the namespaces (R-plumb). The arithmetic "
     "fact b*floor(t/b) <= t < b*floor(t/b)+b for b>0 is mathematics and is not "
     "checked.")
+EXPLANATION += ' The value that is rounded down must be a recorded time (the clock, a stored `added`, an order statistic of them): arithmetic or a rounding function before the floor is reported.'
 
 BLUR = ("cfg", "blur_usage")
 SINK_COLS = {"nameplates": ("started",), "mailboxes": ("started",),
@@ -31,6 +33,25 @@ def blur_form(v):
         for a, b in ((v[2], v[3]), (v[3], v[2])):
             if a == BLUR and b[0] == "binop" and b[1] == "//" and b[3] == BLUR:
                 return b[2]
+    return None
+
+
+# int / floor / float keep floor(t / b) unchanged for an integer interval b
+TIME_CALLS = ("time.time", "sorted", "min", "list", "tuple", ".get", "int", "float",
+              "math.floor", "floor")
+
+
+def _not_a_recorded_time(raw):
+    """The blur must be applied to a time as it was taken or stored: the clock,
+    a stored `added` value or an order statistic of them.  Arithmetic or a
+    rounding function in between (round, int, ceil, + offset ...) moves the
+    value across interval boundaries before it is rounded down."""
+    from ..terms import walk
+    for x in walk(raw):
+        if x[0] == "binop":
+            return "arithmetic (%s) is applied before the rounding" % x[1]
+        if x[0] == "call" and x[1] not in TIME_CALLS:
+            return "%s() is applied before the rounding" % x[1]
     return None
 
 
@@ -66,10 +87,7 @@ def run(ctx):
                     alts = expand_merges(interp, v, tuple(e["pc"]))
                     bad = None
                     for (pc, val) in alts:
-                        pol = None
-                        for (t, b, s) in pc:
-                            if t == BLUR:
-                                pol = b
+                        pol = pc_truth(pc).get(BLUR)
                         if pol is None:
                             bad = "the value %s is written without consulting the blur " \
                                 "setting" % show(val)[:60]
@@ -82,6 +100,12 @@ def run(ctx):
                                 break
                             if mentions(raw, lambda x: x == BLUR):
                                 bad = "odd blur expression %s" % show(val)[:80]
+                                break
+                            odd = _not_a_recorded_time(raw)
+                            if odd:
+                                bad = "the value that is rounded down is %s: %s, so the " \
+                                    "stored time is not the true time rounded DOWN to the " \
+                                    "interval" % (show(raw)[:60], odd)
                                 break
                     ctx.ob("R16.dom", "%s.%s at %s" % (tbl, col, construct_of(e)),
                            bad is None, e, bad or "")
